@@ -224,6 +224,14 @@ def bgp_story(rng, ops, reloads):
     file = dict(cfg)
     asn = fasn = 0
     sess = {}
+    anns = {}          # address -> prefixes its session has announced
+    tainted = set()    # prefixes announced by a session that a load ended: whether they read withdrawn is a race (known finding
+                       # C13-bgp-reload-end-unheard, shown by the corpus); generated cases do not ask about them - every case that meets
+                       # the race is repeated and minimised, which costs minutes
+
+    def ask(p):
+        if p not in tainted:
+            out.append(f"Q 0 {p}")
 
     def opn(k):
         out.append(f"BO {k}")
@@ -235,7 +243,9 @@ def bgp_story(rng, ops, reloads):
             return
         k = rng.choice(sorted(sess))
         if rng.chance(80):
-            out.append(f"BA {k} {rng.below(5)} {pipegen.plist(rng, 1, 2)} -")
+            ps = pipegen.plist(rng, 1, 2)
+            anns.setdefault(k, set()).update(int(x) for x in ps.split(","))
+            out.append(f"BA {k} {rng.below(5)} {ps} -")
         else:
             out.append(f"BA {k} {rng.below(5)} - {pipegen.plist(rng, 1, 2)}")
 
@@ -252,18 +262,22 @@ def bgp_story(rng, ops, reloads):
             k = rng.choice(sorted(sess))
             out.append(f"BZ {k}" + (" 1" if rng.chance(30) else ""))
             del sess[k]
-            out.append(f"Q 0 {rng.below(3) + 1}")
+            anns.pop(k, None)
+            ask(rng.below(3) + 1)
             if rng.chance(50):
                 opn(k)
                 ann()
         elif r < 30 + (45 if reloads else 0):
             touched = []
             for _ in range(rng.range(1, 2)):
-                if rng.chance(25):
+                # (most edits concern addresses without a session: a session that the load ends may keep its routes - known finding
+                # C13-bgp-reload-end-unheard, a race - and every case that meets it is repeated and minimised)
+                if rng.chance(10 if sess else 30):
                     fasn = 1 - fasn
                     out.append(f"BS {fasn}")
                 else:
-                    k = rng.below(5)
+                    idle = [a for a in range(5) if a not in sess]
+                    k = rng.choice(idle) if idle and rng.chance(80) else rng.below(5)
                     v = rng.choice([0, 1, 1, 2])
                     out.append(f"BP {k} {v}")
                     if v:
@@ -277,6 +291,7 @@ def bgp_story(rng, ops, reloads):
             for k in list(sess):
                 if sess[k] != (asn, cfg.get(k)):
                     del sess[k]
+                    tainted.update(anns.pop(k, set()))
             for k in touched + ([rng.below(5)] if rng.chance(50) else []):
                 opn(k)
             if rng.chance(60):
@@ -284,12 +299,12 @@ def bgp_story(rng, ops, reloads):
         else:
             ann()
             if rng.chance(40):
-                out.append(f"Q 0 {rng.below(3) + 1}")
+                ask(rng.below(3) + 1)
     if rng.chance(50):
         opn(rng.below(5))
     for p in (1, 2, 3):
         if rng.chance(70):
-            out.append(f"Q 0 {p}")
+            ask(p)
     out.append("BM")
     return out
 
